@@ -587,7 +587,16 @@ def trusted_base(prop):
 
 
 def partial_clauses(prop):
-    return []
+    return [
+        "round trips through dict_to_tree / dataframe_to_tree / polars_to_tree are proved for single-character "
+        "separators occurring in no name (C06_dict_roundtrip, C06_dataframe_roundtrip); for multi-character separators "
+        "the clause is refuted on the model (C06_dict_roundtrip_multichar_refuted = known finding K3-C06)",
+        "frame round trip: equality up to attribute order and without null-valued attributes (frames cannot represent them; "
+        "dataframe_to_tree documents that nulls are not set), no attribute called 'path'",
+        "round trips are stated for the full export of the whole tree with default keys; re-importing a partial export "
+        "(inner start node, gates) is checked by correspondence on the export side only",
+        "constructors are modelled with their default arguments (duplicate_name_allowed=True, path_col/attribute_cols unset)",
+    ]
 
 
 def assumptions(prop):
